@@ -104,6 +104,10 @@ pub fn convex_clip(subject: &[P], clip: &[P]) -> Vec<P> {
 }
 
 pub fn inter_area(a: &RBox, b: &RBox) -> f64 {
+    // work relative to a's centre (exact in f64 for f32 inputs): shoelace on absolute coordinates
+    // of magnitude 1e4 would lose 8 digits
+    let b = &RBox { xc: b.xc - a.xc, yc: b.yc - a.yc, ..*b };
+    let a = &RBox { xc: 0.0, yc: 0.0, ..*a };
     if a.is_axis_aligned() && b.is_axis_aligned() {
         let x1 = (a.xc - a.w / 2.0).max(b.xc - b.w / 2.0);
         let x2 = (a.xc + a.w / 2.0).min(b.xc + b.w / 2.0);
